@@ -569,6 +569,25 @@ def cases_C09(rng, tier):
                 out.append(case("dec", ty, enc(('a', items)), fam="slot-kind"))
         for wk in WRONG_KINDS:
             out.append(case("dec", ty, enc(wk), fam="not-an-array"))
+    # the protected slot: empty, or EXACTLY one encoded well-formed header map
+    for _ in range(Q(tier, 60, 600)):
+        h = enc(gen_header_map(rng, 1), rng if rng.random() < 0.5 else None)
+        junk = rng.choice([b"\x00", b"\x18", b"\x19\x01", b"\x41", b"\xa0", b"\xff", b"\x81", rbytes(rng, 2) or b"\x01", h])
+        variants = [(h, True), (h + junk, False), (b"", True)]
+        if len(h) > 1: variants.append((h[:-1], False))
+        for ty in MSG_TYPES:
+            good = gen_msg_items(rng, ty, 1)
+            for pb, ok in variants:
+                items = list(good); items[0] = B(pb)
+                items[1] = M()
+                out.append(case("dec", ty, enc(('a', items)), fam="protected-slot",
+                                **({} if ok else {"expect_re": r"err:\w+"})))
+        # nested positions: signer of a COSE_Sign, recipient of a COSE_Mac, counter-signature
+        for pb, ok in variants:
+            kw = {} if ok else {"expect_re": r"err:\w+"}
+            out.append(case("dec", "CoseSign", enc(A(B(b""), M(), NULL, A(A(B(pb), M(), B(b"s"))))), fam="protected-slot-nested", **kw))
+            out.append(case("dec", "CoseMac", enc(A(B(b""), M(), NULL, B(b""), A(A(B(b""), M(), NULL, A(A(B(pb), M(), NULL)))))), fam="protected-slot-nested", **kw))
+            out.append(case("dec", "CoseSign1", enc(A(B(b""), M((I(7), A(B(pb), M(), B(b"c")))), NULL, B(b""))), fam="protected-slot-nested", **kw))
     # nested recipients to depth 3 with a fault at the bottom
     for _ in range(Q(tier, 40, 400)):
         bad = rng.random() < 0.5
@@ -1163,10 +1182,17 @@ def post_C02(cases, impl):
     return probs
 
 # ================================================================= C01
-def nested_header(d):
+def nested_header(d, form="single"):
+    """{7: sig} nested d times through the signature's protected bstr; form: the counter-signature
+    parameter as one COSE_Signature ("single"), as a one-element list ("list"), alternating ("mixed"),
+    or a two-element list whose second signature carries the nesting ("list2")"""
     inner = b"\xa0"
-    for _ in range(d):
-        inner = b"\xa1\x07\x83" + head(2, len(inner)) + inner + b"\xa0\x40"
+    for i in range(d):
+        sig = b"\x83" + head(2, len(inner)) + inner + b"\xa0\x40"
+        f = form if form != "mixed" else ("single" if i % 2 else "list")
+        if f == "single": inner = b"\xa1\x07" + sig
+        elif f == "list": inner = b"\xa1\x07\x81" + sig
+        else: inner = b"\xa1\x07\x82" + b"\x83\x40\xa0\x40" + sig
     return inner
 
 def helper_calls(rng, ty, b):
@@ -1228,14 +1254,16 @@ def cases_C01(rng, tier):
         for ty in ("Value", "Header", "CoseSign1", "CoseKey", "ClaimsSet", "CoseKdfContext"):
             out.append(case("dec", ty, b, fam="length-bomb"))
     # protected headers nested through counter-signatures (finding F1, repaired): model up to 40
-    for d in list(range(0, 24)) + [30, 40]:
-        b = nested_header(d)
-        out.append(case("dec", "Header", b, fam="protected-nesting"))
-        out.append(case("dec", "CoseSign1", enc(A(B(b), M(), NULL, B(b""))), fam="protected-nesting"))
-    for d in (100, 1000, 5000) + ((20000, 100000) if tier != "quick" else ()):
-        b = nested_header(d)
-        out.append(case("dec", "Header", b, fam="protected-nesting-deep", impl_only=True, expect_re=r"err:\w+"))
-        out.append(case("dec", "CoseSign1", enc(A(B(b), M(), NULL, B(b""))), fam="protected-nesting-deep", impl_only=True, expect_re=r"err:\w+"))
+    for form in ("single", "list", "mixed", "list2"):
+        for d in list(range(0, 24)) + [30, 40]:
+            b = nested_header(d, form)
+            out.append(case("dec", "Header", b, fam="protected-nesting:" + form))
+            out.append(case("dec", "CoseSign1", enc(A(B(b), M(), NULL, B(b""))), fam="protected-nesting:" + form))
+            out.append(case("dec", "CoseMac", enc(A(B(b""), M(), NULL, B(b""), A(A(B(b), M(), NULL)))), fam="protected-nesting:" + form))
+        for d in (100, 1000, 5000) + ((20000, 100000) if tier != "quick" else ()):
+            b = nested_header(d, form)
+            out.append(case("dec", "Header", b, fam="protected-nesting-deep:" + form, impl_only=True, expect_re=r"err:\w+"))
+            out.append(case("dec", "CoseSign1", enc(A(B(b), M(), NULL, B(b""))), fam="protected-nesting-deep:" + form, impl_only=True, expect_re=r"err:\w+"))
     for n in ((1 << 16), (1 << 20)) + (((1 << 24),) if tier != "quick" else ()):
         big = head(2, n) + bytes(n)
         out.append(case("dec", "Value", big, fam="large-input", impl_only=True, expect_re=r"ok .*"))
